@@ -69,8 +69,9 @@ def trees(depth, rng, limit):
             nxt.append((f'struct({n1},{n2}?)', lambda f1=f1, f2=f2: D.StructOf(a=f1(), b=f2(), optional=['b'])))
         nxt.append(('limits(int)', lambda: D.LimitsType(D.IntRange(-3, 3))))
         nxt.append(('limits(dbl)', lambda: D.LimitsType(D.FloatRange(-1.5, 2.5))))
+        lim = [t for t in nxt if t[0].startswith('limits(')]
         if len(nxt) > limit:
-            nxt = rng.sample(nxt, limit)
+            nxt = rng.sample([t for t in nxt if not t[0].startswith('limits(')], limit - len(lim)) + lim
         out.extend(nxt)
         level = nxt
     return out
@@ -113,6 +114,18 @@ def _ok(dt, v):
         return False
 
 
+def _finding_key(clause, tname, inp, observed):
+    """identifies the input class of a finding recorded in known_findings.json (nothing else is ever suppressed)"""
+    if clause == 'rebuild/behaviour' and tname.startswith('limits(') and 'RangeError' in str(observed).split('rebuild')[0]:
+        v = inp.get('value')
+        try:
+            if isinstance(v, (list, tuple)) and len(v) == 2 and v[1] < v[0]:
+                return 'C03-limits-order-not-in-datainfo'
+        except TypeError:
+            pass
+    return None
+
+
 class Run:
     def __init__(self):
         self.evals = 0
@@ -122,8 +135,12 @@ class Run:
 
     def bad(self, clause, tname, func, inp, observed):
         if len(self.violations) < 40:
-            self.violations.append({'clause': clause, 'contract': func, 'file': 'frappy/datatypes.py', 'func': func,
-                                    'input': {'datatype': tname, **{k: repr(v) for k, v in inp.items()}}, 'observed': observed})
+            v = {'clause': clause, 'contract': func, 'file': 'frappy/datatypes.py', 'func': func,
+                 'input': {'datatype': tname, **{k: repr(v) for k, v in inp.items()}}, 'observed': observed}
+            fk = _finding_key(clause, tname, inp, observed)
+            if fk:
+                v['finding_key'] = fk
+            self.violations.append(v)
 
     def case(self, key, sample=None):
         self.evals += 1
